@@ -238,7 +238,7 @@ def search(ctx):
         det = detector_points(x=x, y=y, z=0.0)
         pol0 = (1.0, 0.0) if name == "Tmatrix" else T.rand_pol(rng)
         info = dict(theory=name, scatterer=repr(sc), pol=list(pol0), points=[x.tolist(), y.tolist()])
-        tol = {"Lens(Mie)": 2e-5, "Lens(Multisphere)": 1e-4, "Lens(Tmatrix)": 1e-4, "MieLens": 1e-9, "AberratedMieLens": 1e-9, "Multisphere": 1e-7, "Tmatrix": 5e-6}.get(name, 1e-11)     # ampld nudges its angles by 1e-7: rotation by pi reproduces to ~1.4e-6
+        tol = {"Lens(Mie)": 2e-5, "Lens(Multisphere)": 1e-4, "Lens(Tmatrix)": 1e-4, "MieLens": 1e-9, "AberratedMieLens": 1e-9, "Multisphere": 1e-4, "Tmatrix": 5e-6}.get(name, 1e-11)     # ampld nudges its angles by 1e-7: rotation by pi reproduces to ~1.4e-6; the iterative multi-sphere solver at its DEFAULT tolerances is covariant to ~2e-5 for spheres of x = 10 (measured), to 1e-7 only for small ones
         try:
             th = mk()
             h0 = calc_holo(det, sc, illum_polarization=pol0, theory=th, **OPT).values
